@@ -6,6 +6,8 @@ containers  Engine B: explicit-state BFS to fixpoint over a pool of live, aliase
 strings     Engine C: every argument tuple of the string* functions over a pool of short strings.
 regex       every ordered pair (s, t) of short punctuation strings: '^' + regexEscape(s) + '$' matches t iff s == t.
 url         every string of length <= 2 over ASCII + 6 non-ASCII characters: allowed output alphabet, reversible.
+fresh       short histories r1 = f(args); mutate r1 in place; r2 = f(same args) for every container-returning function:
+            results are never shared between calls.
 """
 
 import datetime
@@ -30,7 +32,9 @@ RULE = ('containers: states are the distinct canonical states (values + alias gr
         'every other type per parameter x missing and surplus arguments); every (state, event) pair is one case and one '
         'transition executed by the real interpreter; it is non-trivial when the documented call succeeds (is not a '
         'failure-value return). strings/regex/url: plain exhaustive tuples; non-trivial = the call succeeds with a '
-        'specified result / the pair is a near miss (same length, one position differs) or equal / the text needs escaping.')
+        'specified result / the pair is a near miss (same length, one position differs) or equal / the text needs escaping. fresh: '
+        'every (function, argument list, mutation) triple of a fixed table is one two-call history; non-trivial = the first call '
+        'returned a container and the mutation changed it.')
 ASSUMPTIONS = [
     'mc/ref/lib.py (plain list/dict/str operations written from the $doc/$arg/$return comments and the documented signatures) is right',
     'Python list/dict behaviour depends only on contents, element identity and (dict) insertion order - the three things the state key contains',
@@ -933,6 +937,192 @@ def fam_url(arg):
 
 
 # ---------------------------------------------------------------------------------------------------------------
+# fresh: short histories  r1 = f(args); mutate r1 in place; r2 = f(same args)  for every container-returning function
+# ---------------------------------------------------------------------------------------------------------------
+
+MUTATIONS = ['push', 'pop', 'set0', 'direct-append', 'direct-clear']
+FRESH_PATTERNS = ['a', ' ', 'a|b', '(a)(b)?', 'x']
+# functions of the property's scope (reference result available) and, beyond it, the regex functions that return
+# containers (no reference model: the second result must equal what the first one was before it was mutated)
+FRESH_REF = ('stringSplit', 'arrayCopy', 'arraySlice', 'arrayNew', 'arrayNewSize', 'objectCopy', 'objectKeys', 'objectNew')
+FRESH_FROM_SCRATCH = ('stringSplit', 'regexSplit', 'regexMatchAll', 'regexMatch', 'objectKeys')   # nothing of the result may be shared at any depth
+
+
+def short_strings():
+    out = ['']
+    for n in (1, 2):
+        out.extend(''.join(t) for t in itertools.product('ab ', repeat=n))
+    return out
+
+
+def fresh_argsets(name):
+    """The argument lists (JSON-able; {'regex': pattern} stands for a regular expression) tried for one function."""
+    shorts = short_strings()
+    arrays = [[], [1.0], [1.0, 'x'], [['x'], None]]
+    objects = [{}, {'k1': 1.0}, {'k1': 1.0, 'k2': 'x'}, {'k1': ['x']}]
+    if name == 'stringSplit':
+        return [[s, sep] for s in shorts for sep in shorts[1:] + [',']]
+    if name in ('regexSplit', 'regexMatchAll', 'regexMatch'):
+        return [[{'regex': pat}, s] for pat in FRESH_PATTERNS for s in shorts]
+    if name == 'arrayCopy':
+        return [[a] for a in arrays]
+    if name == 'arraySlice':
+        return [[a] + rest for a in arrays for rest in ([], [0.0], [1.0], [0.0, 1.0], [0.0, 2.0], [1.0, 1.0], [1.0, 2.0])]
+    if name in ('objectCopy', 'objectKeys'):
+        return [[o] for o in objects]
+    if name == 'arrayNew':
+        return [[], [1.0], [1.0, 'x']]
+    if name == 'arrayNewSize':
+        return [[], [0.0], [2.0], [2.0, 'x']]
+    if name == 'objectNew':
+        return [[], ['k1', 1.0], ['k1', 1.0, 'k2', 'x']]
+    raise HarnessError(name)
+
+
+FRESH_SIZES = {'stringSplit': 13 * 13, 'regexSplit': 5 * 13, 'regexMatchAll': 5 * 13, 'regexMatch': 5 * 13, 'arrayCopy': 4, 'arraySlice': 4 * 7,
+               'objectCopy': 4, 'objectKeys': 4, 'arrayNew': 3, 'arrayNewSize': 4, 'objectNew': 3}
+
+
+def build_args(spec):
+    """Fresh argument objects from the JSON-able description (a private deep copy per call site)."""
+    import copy  # pylint: disable=import-outside-toplevel
+    return [re.compile(a['regex']) if isinstance(a, dict) and set(a) == {'regex'} else copy.deepcopy(a) for a in spec]
+
+
+def reachable(value, out=None):
+    out = {} if out is None else out
+    if isinstance(value, (list, dict)) and id(value) not in out:
+        out[id(value)] = value
+        for x in (value if isinstance(value, list) else value.values()):
+            reachable(x, out)
+    return out
+
+
+class FreshRuntime:
+    def __init__(self):
+        self.bs = load_impl()
+        self.globals = {}
+        self.options = {'globals': self.globals}
+        self.cache = {}
+
+    def run(self, text):
+        script = self.cache.get(text)
+        if script is None:
+            script = self.cache[text] = self.bs.parse_script(text)
+        self.bs.execute_script(script, self.options)
+
+
+_FRT = []
+
+
+def check_fresh(case, acc):  # pylint: disable=too-many-locals,too-many-branches,too-many-statements
+    import copy  # pylint: disable=import-outside-toplevel
+    if not _FRT:
+        _FRT.append(FreshRuntime())
+    frt = _FRT[0]
+    name, spec, mut = case['fn'], case['args'], case['mut']
+    G = frt.globals
+    for k in [k for k in G if k[0] in 'gr' or k in ('mm', 'kk')]:
+        del G[k]
+    args = build_args(spec)
+    for i, a in enumerate(args):
+        G[f'g{i}'] = a
+    call = f"{name}({', '.join(f'g{i}' for i in range(len(args)))})"
+    argpool = {}
+    for a in args:
+        reachable(a, argpool)
+    frt.run('r1 = ' + call)
+    acc.evals += 1
+    r1 = G.get('r1')
+    if name in FRESH_REF:
+        rargs = build_args(spec)
+        out = rl.call(name, rargs)
+        got = sorted(r1) if name == 'objectKeys' and isinstance(r1, list) else r1
+        if out.value is not UNSPECIFIED and canon({'args': args, 'r': got}) != canon({'args': rargs, 'r': out.value}):
+            acc.violation(case, out.value, r1, 'first result differs from the reference (values, or fresh vs shared with the arguments)')
+            return None
+    if not isinstance(r1, (list, dict)):
+        # a failing or non-matching call: nothing to mutate; the repeated call must still say the same
+        frt.run('r2 = ' + call)
+        acc.evals += 1
+        if canon(G.get('r2')) != canon(r1):
+            acc.violation(case, r1, G.get('r2'), 'the repeated call returns something else')
+        return ('scalar', rv.rtype(r1))
+    snapshot = copy.deepcopy(r1)
+    argsnap = canon(args)
+    model = copy.deepcopy(r1)
+    is_list = isinstance(r1, list)
+    G['kk'] = kk = 'zz' if is_list or not r1 else next(iter(r1))
+    if mut == 'push':
+        frt.run("mm = arrayPush(r1, 'zz')" if is_list else "mm = objectSet(r1, 'zz', 1.0)")
+        if is_list:
+            model.append('zz')
+        else:
+            model['zz'] = 1.0
+    elif mut == 'pop':
+        frt.run('mm = arrayPop(r1)' if is_list else 'mm = objectDelete(r1, kk)')
+        if is_list:
+            if model:
+                model.pop()
+        else:
+            model.pop(kk, None)
+    elif mut == 'set0':
+        frt.run("mm = arraySet(r1, 0.0, 'zz')" if is_list else "mm = objectSet(r1, kk, 'zz')")
+        if is_list:
+            if model:
+                model[0] = 'zz'
+        else:
+            model[kk] = 'zz'
+    elif mut == 'direct-append':
+        if is_list:
+            r1.append('zz')
+            model.append('zz')
+        else:
+            r1['zz'] = 1.0
+            model['zz'] = 1.0
+    elif mut == 'direct-clear':
+        r1.clear()
+        model.clear()
+    else:
+        raise HarnessError(mut)
+    mutated = canon(r1) != canon(snapshot)
+    if canon(r1) != canon(model):
+        acc.violation(case, model, r1, 'the in-place mutation of the first result did not have its documented effect')
+        return None
+    if name not in FRESH_FROM_SCRATCH and canon(args) != argsnap:
+        acc.violation(case, spec, args, 'mutating the result changed the argument it was copied from')
+    frt.run('r2 = ' + call)
+    acc.evals += 1
+    r2 = G.get('r2')
+    if r2 is r1:
+        acc.violation(case, 'a fresh container', 'the very object the first call returned', 'the repeated call returns the same container object as the first call')
+        return ('same', mutated)
+    shared = [v for k, v in reachable(r2).items() if k in reachable(r1) and (name in FRESH_FROM_SCRATCH or k not in argpool)]
+    if shared:
+        acc.violation(case, 'no container shared between the two results', shared[0], 'the two results share a container object (other than an element of the arguments)')
+    if canon(r2) != canon(snapshot):
+        acc.violation(case, snapshot, r2, 'the repeated call does not return what the first call returned before its result was mutated')
+    if canon(r1) != canon(model):
+        acc.violation(case, model, r1, 'the first result lost its mutation when the call was repeated')
+    return ('list' if is_list else 'object', len(snapshot), mutated)
+
+
+def fam_fresh(arg):
+    name = arg
+    acc = Acc('fresh')
+    for spec in fresh_argsets(name):
+        for mut in MUTATIONS:
+            acc.cases += 1
+            obs = check_fresh({'fn': name, 'args': spec, 'mut': mut}, acc)
+            acc.outcome((name, obs))
+            if obs is not None and obs[0] in ('list', 'object') and obs[-1]:
+                acc.nontrivial += 1
+            if acc.cases % 97 == 3:
+                acc.sample({'fn': name, 'args': spec, 'mutation': mut, 'observed': obs})
+    return acc.result()
+
+
+# ---------------------------------------------------------------------------------------------------------------
 
 def families(tier):
     b = BOUNDS[tier]
@@ -964,10 +1154,15 @@ def families(tier):
         Family('url', fam_url, split(list(range(nurl)), 32),
                f'every string of length 1..2 over {nurl} characters (128 ASCII + 6 non-ASCII) + "" + {len(URL_EXTRA)} longer percent cases; both functions',
                expected=nurl * (nurl + 1) + 1 + len(URL_EXTRA) + 2 * (n_wrong('string') + 2)),
+        Family('fresh', fam_fresh, list(FRESH_SIZES),
+               'histories r1 = f(args); mutate r1 in place (arrayPush/arrayPop/arraySet or objectSet/objectDelete through the library, append/clear directly); '
+               'r2 = f(same args), for the 8 container-returning functions of the property (stringSplit, arrayCopy, arraySlice, arrayNew, arrayNewSize, objectCopy, '
+               'objectKeys, objectNew) and regexSplit/regexMatchAll/regexMatch; stringSplit over the 13 strings of length <= 2 over a,b,space x 13 separators',
+               expected=sum(FRESH_SIZES.values()) * len(MUTATIONS)),
     ]
 
 
-_CHECKS = {'containers': check_containers, 'strings': check_strings, 'regex': check_regex, 'url': check_url}
+_CHECKS = {'containers': check_containers, 'strings': check_strings, 'regex': check_regex, 'url': check_url, 'fresh': check_fresh}
 
 
 def replay(family, case):
